@@ -100,6 +100,13 @@ SITE = [
     # dot of two 1-d operands: the lengths must agree (the repair of D19)
     dict(name="sv_dot_1d_shape_check", file=CM, func="dot", locator=("if_stmt", "a.shape != b.shape"), params=["sa", "sb"],
          extern={"a.shape != b.shape": "ext_shape_ne sa sb"}),
+    # matmul rejects 0-d operands before delegating to dot (9e6cc99)
+    dict(name="sv_matmul_0d_check", file=CM, func="matmul", locator=("if_stmt", "a.ndim == 0 or b.ndim == 0"), params=["nda", "ndb"],
+         extern={"a.ndim": "Ok nda", "b.ndim": "Ok ndb"}),
+    # einsum: an output subscript must occur exactly once in the output (a749d30); cnt = output_subscript.count(char)
+    dict(name="sv_einsum_out_count_check", file=CM, func="_parse_einsum_input",
+         locator=("if_stmt", "output_subscript.count(char) != 1"), params=["cnt"],
+         extern={"output_subscript.count(char)": "Ok cnt"}),
     # the outer-loop tests of the two COO x ndarray kernels (the guard that repaired D3 lives here)
     dict(name="sv_dcn_outer_test", file=CM, func="_dot_coo_ndarray_type._dot_coo_ndarray", locator=("while_test", 0),
          params=["didx1", "n", "ncols"], extern={"len(data1)": "Ok n", "out_shape[1]": "Ok ncols"}),
@@ -120,8 +127,14 @@ VALIDATOR_CALLS = {"normalize_axis", "normalize_index", "check_index", "check_co
                    "check_consistent_fill_value", "check_fill_value", "_get_broadcast_shape", "_get_nary_broadcast_shape"}
 KERNEL_CALLS = {"COO", "GCXS", "DOK", "cls", "_dot", "as_coo", "_from_coo", "linear_loc", "todense", "tocoo", "reshape",
                 "transpose", "_get_expanded_coords_data", "_sort_indices", "_sum_duplicates", "_prune",
-                "change_compressed_axes", "_mask", "stack", "tensordot", "sum", "asformat"}
-NEUTRAL_CALLS = {"count", "len", "list", "tuple", "range", "reversed", "unique", "append", "any", "all", "isinstance", "enumerate", "max",
+                "change_compressed_axes", "_mask", "stack", "tensordot", "sum", "asformat",
+                "dot", "_matmul_recurser", "from_coo", "get_array_selection", "get_single_element", "get_slicing_selection",
+                "convert_to_flat", "uncompress_dimension"}
+NEUTRAL_CALLS = {"insert", "pop", "prod", "index", "isalpha", "join", "replace", "set", "sorted", "split", "List", "arange",
+                 "array", "bincount", "cumsum", "isscalar", "tolist",
+                 # inspection of the INPUT operands that rejects nothing (NaN warning; is the index array sorted)
+                 "check_class_nan", "is_sorted",
+                 "count", "len", "list", "tuple", "range", "reversed", "unique", "append", "any", "all", "isinstance", "enumerate", "max",
                  "min_scalar_type", "can_store", "reduce", "empty", "zip", "zip_longest", "_get_broadcast_parameters", "chain", "int",
                  "iter", "result_type", "_is_scipy_sparse_obj", "hasattr", "type", "_zero_of_dtype", "equivalent", "extend",
                  "slice", "zeros", "asarray", "super", "__init__", "warn", "format", "broadcast_to",
@@ -138,6 +151,9 @@ PROGS = [
     dict(name="site_prog_tensordot", file=CM, func="tensordot"),
     dict(name="site_prog_dot", file=CM, func="dot"),
     dict(name="site_prog_coo_getitem", file="sparse/numba_backend/_coo/indexing.py", func="getitem"),
+    dict(name="site_prog_matmul", file=CM, func="matmul"),
+    dict(name="site_prog_parse_einsum", file=CM, func="_parse_einsum_input"),
+    dict(name="site_prog_gcxs_getitem", file="sparse/numba_backend/_compressed/indexing.py", func="getitem"),
     dict(name="site_prog_coo_init", file=CO, func="COO.__init__",
          neutral_text=["self.coords.reshape((len(shape), len(data)))"]),
 ]
